@@ -63,6 +63,12 @@ def impl(case):
     elif case.get('layout') == 'view':
         arr = np.ascontiguousarray(arr.transpose(2, 0, 1)).transpose(1, 2, 0)
     vol = Volume(data=arr, lattice=lat)
+    # a figure of the density is a view of it: drawing it first (half of the cases) must leave the density as it is
+    if case.get('pre_call') and arr.ndim == 3 and min(arr.shape) >= 2:
+        try:
+            _fig = vol.plot_3d()
+        except Exception:
+            pass
     with np.errstate(divide='ignore'):
         fe = vol.get_free_energy(case['T'])
     if case.get('pre_call'):
